@@ -349,3 +349,12 @@ Definition c19_dseq_row (pd : bool) (T : table) (ops : list dop) (obs : list (na
   [ forallb (fun o => eqb_option descr_eqb (slot_get (fst o) (drun mk vf ops [])) (Some (snd o))) obs;
     true; true; true; true; true; true; true; true;
     ok_independent pd T ops obs ].
+
+(* ---- fresh Slot() objects after earlier ones were mutated in place ----
+   observed: every Slot() as it was right after its construction *)
+Definition default_slot : slot := mkSlot true (Some 1) (RInts []) (RInts []) 0 0 0 EmptyString.
+
+Definition c19_slotdefault_row (obs : list slot) : list bool :=
+  [ forallb (fun s => slot_eqb s default_slot) obs;
+    true; true; true; true; true; true; true; true;
+    forallb (fun s => slot_eqb s default_slot) obs ].
